@@ -89,6 +89,14 @@ CLAIMED = {
              "consumed files are removed. Tied to the real EventReader against a mock host: POST bodies are compared byte-for-byte with "
              "the model's batches and parsed twice by an independent XML parser (expat).",
         design="§7 C18", technique="Lean 4 proof (induction / functional induction) + differential correspondence"),
+    "C19": dict(
+        text="Lean theorems (invariants by induction over arbitrary write histories, from the empty directory or from whatever an earlier "
+             "run with the same settings left): files per rolling log <= configured count; current file < size limit + last write; "
+             "the delete loop removes exactly the oldest files (proved equal to a drop of the oldest-first list); event directory never "
+             "above its cap under any mix of flushes and reader removals; at most the configured number of rule dumps, oldest removed first. "
+             "Tied to the real RollingLogger, event_logger::start and AuthorizationRulesForLogging::write_all in scratch directories: the "
+             "listing after every operation is compared with the model.",
+        design="§7 C19", technique="Lean 4 proof (invariants by induction) + differential correspondence"),
     "C20": dict(
         text="Lean theorems over all finite observation/notification histories (induction, invariant) about the "
              "model of StatusState/ServiceState instantiated with constants regenerated from the source; the model "
